@@ -511,6 +511,16 @@ def input_pure(ctx: core.Ctx, mod: ast.Module, rule="INPUT-PURE"):
                     alias.pop(t.id, None)          # re-bound to something of the function's own
         # parameters that the function itself replaces by a fresh object first (`calibration_map = {}` under `is None`) stay parameters: a later
         # store would still hit the caller's object on the other path
+        # a parameter re-bound, unconditionally (a statement of the function body itself), to a new object -- `p = dict(p)`, `p = p.copy()`,
+        # a display or comprehension -- is the function's own from there on (the defensive-copy idiom)
+        fresh_from = {}
+        for st in fn.body:
+            if isinstance(st, ast.Assign) and len(st.targets) == 1 and isinstance(st.targets[0], ast.Name) and st.targets[0].id in params:
+                v = st.value
+                new_obj = isinstance(v, (ast.Dict, ast.List, ast.Set, ast.DictComp, ast.ListComp, ast.SetComp)) or \
+                    (isinstance(v, ast.Call) and (ast.unparse(v.func).split(".")[-1] in ("dict", "list", "set", "copy", "deepcopy", "OrderedDict", "sorted")))
+                if new_obj:
+                    fresh_from.setdefault(st.targets[0].id, st.lineno)
         bad = []
         for w in effects.writes(fn):
             if w.kind == "attr":
@@ -518,6 +528,8 @@ def input_pure(ctx: core.Ctx, mod: ast.Module, rule="INPUT-PURE"):
             root = w.target.split("[")[0]
             base = root if root in alias or root in params else (root.split(".")[0] if root.split(".")[0] in params else None)
             if base is None:
+                continue
+            if base in fresh_from and (w.line or 0) > fresh_from[base]:
                 continue
             bad.append((w, alias.get(base, base)))
         ctx.oblige(rule, f"{F}:{q}", f"stores into given objects: {[(w.text[:50], p_) for w, p_ in bad]}", not bad, file=F, func=q,
